@@ -62,8 +62,30 @@ REACTIONS = {
 }
 
 
+def _twin(r):
+    """The reaction plus a copy of every transition in which each intermediate particle is a renamed twin (same quantum numbers, mass and
+    width; other name and LaTeX). qrules' Particle ignores names in ==/hash: twin transitions compare EQUAL to the originals."""
+    import attrs
+    import qrules
+
+    out = list(r.transitions)
+    for t in r.transitions:
+        inter = set(t.topology.intermediate_edge_ids)
+        states = {i: (attrs.evolve(st, particle=attrs.evolve(st.particle, name=st.particle.name + "-twin", latex=(st.particle.latex or st.particle.name) + "^{\\prime}")) if i in inter else st)
+                  for i, st in t.states.items()}
+        out.append(attrs.evolve(t, states=states))
+    return qrules.transition.ReactionInfo(out, formalism=r.formalism)
+
+
+DERIVED = {"jpsi_gamma_pi0_pi0_twin": ("jpsi_gamma_pi0_pi0", _twin)}
+REACTIONS["jpsi_gamma_pi0_pi0_twin"] = dict(REACTIONS["jpsi_gamma_pi0_pi0"])
+
+
 def reaction(name: str, formalism: str = "helicity"):
     """qrules ReactionInfo, from the cache or generated (2-20 s) offline."""
+    if name in DERIVED:
+        base, fn = DERIVED[name]
+        return fn(reaction(base, formalism))
     os.makedirs(CACHE, exist_ok=True)
     path = os.path.join(CACHE, f"{name}.{formalism}.pkl")
     if os.path.exists(path):
